@@ -183,6 +183,7 @@ def gen(
                             },
                             "function": {
                                 "function_name": _name,
+                                "function_type": "static",
                             },
                             "argparse": {"function_name": _name},
                         }[type_]
